@@ -40,6 +40,7 @@ EDGES_Q = [("EX_edges_cmdQ.cfg", dict(max_entries=2, late=True)),
            ("EX_edges_time1_early.cfg", dict(max_entries=1, late=False, scale=16000)),
            ("EX_edges_time2_late.cfg", dict(max_entries=2, late=True, scale=16000, prios="low")),
            ("EX_edges_time2_early.cfg", dict(max_entries=2, late=False))]
+TOUR_CAP = 9000       # at most this many tours of one graph are replayed
 EDGES_BIG = [("EX_edges_cmd.cfg", dict(max_entries=2, late=True, prios="edge")),
              ("EX_edges_nw.cfg", dict(max_entries=2, late=True, cookies="edge", hostbits=True)),
              ("EX_edges_time_late.cfg", dict(max_entries=2, late=True)),
@@ -104,7 +105,8 @@ def run(ctx):
   ctx.rule = ("behaviours exported by TLC from FlowTable.tla (all paths of depth 3 over a "
               "FLOW_MOD/packet/tick/sweep/stats alphabet; transition tours covering every "
               "transition of the abstract state graphs of six (quick) / ten (thorough) "
-              "alphabets; -simulate walks of depth 60) replayed on a real SoftwareSwitch through OFConnection bytes, table "
+              "alphabets (thorough: a seeded sample of 9000 tours of each of the two largest "
+              "graphs); -simulate walks of depth 60) replayed on a real SoftwareSwitch through OFConnection bytes, table "
               "+ messages + emitted ports compared after every step; plus seeded random "
               "histories of the real switch validated by TLC (TraceFlowTable).  distinct = "
               "distinct action/argument sequences; non-trivial = some step changes the table "
@@ -192,9 +194,13 @@ def run(ctx):
     if not behs:
       raise tlc.TLCError("no behaviours exported by %s" % cfg)
     walks = c04_tour.tours(behs, maxlen=80, reach=4)
+    ntours = len(walks)
+    if ntours > TOUR_CAP:                 # the two big timeout graphs: seeded sample
+      walks = rnd.sample(walks, TOUR_CAP)
     _count_hows(walks, hows)
     st = core.replay(ctx, ADAPTER, walks, params=params, nontrivial=_nontrivial, chunk=20)
-    ctx.notes["replay_" + cfg[3:-4]] = dict(transitions=len(behs), tours=len(walks),
+    ctx.notes["replay_" + cfg[3:-4]] = dict(transitions=len(behs), tours=ntours,
+                                            tours_replayed=len(walks),
                                             steps=sum(len(w) for w in walks),
                                             params=params, **st)
   lap("replay_edges")
@@ -267,6 +273,11 @@ def run(ctx):
                                               negative_control_rejected=True)
   lap("trace_validation")
   ctx.exhaustive = True
+  ctx.notes["exhaustive_scope"] = (
+      "complete: all paths of depth 3 (thorough: and depth 5) over the stated alphabets, every "
+      "transition of the reduced graphs (cmdQ, nwQ, time1, time2) and, in thorough, of the cmd "
+      "and nw graphs; sampled: tours of the two largest timeout graphs (thorough), random "
+      "walks and random implementation histories")
 
 
 _exp_re = re.compile(r'^<<"EXPECTED", (\d+), (\d+), "([a-z_]+)", (".*")>>$')
